@@ -441,15 +441,17 @@ theorem Server.join_WF (cfg : Cfg) {srv : Server} (h : srv.WF) (c rid ots : Nat)
     simp only []
     split
     · exact h
-    · have hs := (Server.locate_some hl).1
-      have h1 := Server.leave_WF cfg h (p := p) hs
-      have h2 := Server.leave_removes_conn cfg h hl
-      rcases hle : srv.leave cfg s p with ⟨srv', ds⟩
-      rw [hle] at h1 h2
-      have := Server.joinFresh_WF cfg h1 c rid ots target hint h2
-      rcases hj : srv'.joinFresh cfg c rid ots target hint with ⟨srv'', ds', o⟩
-      rw [hj] at this
-      exact this
+    · split
+      · exact h
+      · have hs := (Server.locate_some hl).1
+        have h1 := Server.leave_WF cfg h (p := p) hs
+        have h2 := Server.leave_removes_conn cfg h hl
+        rcases hle : srv.leave cfg s p with ⟨srv', ds⟩
+        rw [hle] at h1 h2
+        have := Server.joinFresh_WF cfg h1 c rid ots target hint h2
+        rcases hj : srv'.joinFresh cfg c rid ots target hint with ⟨srv'', ds', o⟩
+        rw [hj] at this
+        exact this
 
 theorem Server.handleReq_WF (cfg : Cfg) {srv : Server} (h : srv.WF) (c : Nat) (r : Req) (hint : Nat) :
     (srv.handleReq cfg c r hint).1.WF := by
